@@ -144,6 +144,11 @@ struct ItemSpec {
     /// derived PartialEq on Option / tuple of plain data has no vstd specification
     #[serde(default)]
     eq_sites: Vec<String>,
+    /// N18: method calls on opaque external iterators → specified free functions:
+    /// [[receiver regex, method, function]]; `R.m(args)` → `f(&mut R, args)`, and for an indexed receiver
+    /// `V[k].m()` → `f_at(&mut V, k)`
+    #[serde(default)]
+    method_to_fn: Vec<(String, String, String)>,
     /// N4: names for tuple-pattern parameters, by parameter index ("2" -> "t1")
     #[serde(default)]
     arg_names: BTreeMap<String, String>,
@@ -383,6 +388,7 @@ impl<'ast, 't> Visit<'ast> for LoopCollector<'t> {
 // ---------------------------------------------------------------- normalisation rules
 
 struct Normaliser<'t> {
+    method_to_fn: Vec<(Regex, String, String)>,
     eq_sites: Vec<Regex>,
     deref_operands: Vec<String>,
     sends: Vec<SendSpec>,
@@ -881,6 +887,30 @@ impl<'ast, 't> Visit<'ast> for Normaliser<'t> {
         }
         syn::visit::visit_expr_path(self, p);
     }
+    fn visit_expr_method_call(&mut self, mc: &'ast syn::ExprMethodCall) {
+        if !self.method_to_fn.is_empty() && (self.on)("N18") {
+            let recv = self.t(mc.receiver.span());
+            let hit = self.method_to_fn.iter().find(|(r, m, _)| mc.method == m.as_str() && r.is_match(recv)).cloned();
+            if let Some((_, _, f)) = hit {
+                let args: Vec<String> = mc.args.iter().map(|a| self.t(a.span()).to_string()).collect();
+                let (s, e) = br(mc.span());
+                let new = if let syn::Expr::Index(ix) = &*mc.receiver {
+                    let v = self.t(ix.expr.span());
+                    let k = self.t(ix.index.span());
+                    let mut a = vec![format!("&mut {}", v), k.to_string()];
+                    a.extend(args);
+                    format!("{}_at({})", f, a.join(", "))
+                } else {
+                    let mut a = vec![format!("&mut {}", recv)];
+                    a.extend(args);
+                    format!("{}({})", f, a.join(", "))
+                };
+                self.push(s, e, new, "N18");
+                return;
+            }
+        }
+        syn::visit::visit_expr_method_call(self, mc);
+    }
     fn visit_expr_closure(&mut self, c: &'ast syn::ExprClosure) {
         // N4b: tuple-pattern closure parameters → plain identifier + leading `let`
         if (self.on)("N4") && c.asyncness.is_none() {
@@ -1218,7 +1248,7 @@ fn main() {
             };
             for fp in &fns {
                 sig_edits(&text, fp, &on, &it.arg_names, &mut edits);
-                let mut nz = Normaliser { eq_sites: it.eq_sites.iter().filter_map(|r| Regex::new(r).ok()).collect(), deref_operands: it.deref_operands.clone(), sends: it.sends.clone(), n2_types: it.n2_types.iter().filter_map(|(r, t)| Regex::new(r).ok().map(|r| (r, t.clone()))).collect(), let_types: it.let_types.clone(), n9: it.n9, n6: it.n6.clone(), reg_index: it.reg_index.clone(), bool_and: it.bool_and.iter().filter_map(|r| Regex::new(r).ok()).collect(), n3_all: it.n3.as_deref() == Some("all"), n3_match: it.n3_match.iter().filter_map(|r| Regex::new(r).ok()).collect(), text: &text, edits: vec![], on: &on, eager_futs: vec![] };
+                let mut nz = Normaliser { method_to_fn: it.method_to_fn.iter().filter_map(|(r, m, f)| Regex::new(r).ok().map(|r| (r, m.clone(), f.clone()))).collect(), eq_sites: it.eq_sites.iter().filter_map(|r| Regex::new(r).ok()).collect(), deref_operands: it.deref_operands.clone(), sends: it.sends.clone(), n2_types: it.n2_types.iter().filter_map(|(r, t)| Regex::new(r).ok().map(|r| (r, t.clone()))).collect(), let_types: it.let_types.clone(), n9: it.n9, n6: it.n6.clone(), reg_index: it.reg_index.clone(), bool_and: it.bool_and.iter().filter_map(|r| Regex::new(r).ok()).collect(), n3_all: it.n3.as_deref() == Some("all"), n3_match: it.n3_match.iter().filter_map(|r| Regex::new(r).ok()).collect(), text: &text, edits: vec![], on: &on, eager_futs: vec![] };
                 nz.visit_block(fp.block);
                 edits.extend(nz.edits);
                 let _ = fp.whole;
